@@ -163,7 +163,7 @@ def valid(h):
 def harness(ctx):
     R, H = vlib.REPO, os.path.join(vlib.VERIF, 'harness')
     exe, log = ctx.cc('h_isr', [H + '/h_isr.c', R + '/librfn/list.c', R + '/librfn/messageq.c', R + '/librfn/util.c', R + '/librfn/posix/time_posix.c'],
-                      ['-I' + H + '/shim', '-I' + R + '/librfn'])     # no fork-per-history here: tens of thousands of tiny histories, the harness restores the kernel image itself
+                      ['-I' + H + '/shim', '-I' + R + '/librfn', '-Wl,--wrap=list_extract'])     # no fork-per-history here: tens of thousands of tiny histories, the harness restores the kernel image itself
     if not exe:
         raise vlib.Unbuildable('interrupt-script harness does not compile against the repository: ' + log[-1500:])
     return exe
